@@ -19,6 +19,8 @@ unsigned char g_byteA, g_byteB; /* last byte written there */
 long  g_hp_min_wr;              /* lowest offset written */
 int   g_hp_failed;              /* some HP_* call failed in this run */
 int   g_hp_may_fail;
+const unsigned char *g_img; /* optional ghost disk image served by HP_read (NULL: arbitrary bytes) */
+long  g_img_len;
 
 static void h4v_hp_init(int may_fail)
 {
@@ -26,6 +28,8 @@ static void h4v_hp_init(int may_fail)
     g_hp_failed = 0;
     g_seq = g_seqA = g_seqB = g_firstA = g_firstB = 0;
     g_hp_min_wr = LONG_MAX;
+    g_img = NULL;
+    g_img_len = 0;
     g_rd_n = g_wr_n = g_seek_n = 0;
     g_add_session = 0;
     g_L = 0;
@@ -91,8 +95,13 @@ int HP_read(filerec_t *file_rec, void *buf, int32 bytes)
     H4V_CHECK(bytes >= 0, "HP_read of a negative count");
     if (h4v_hp_fail())
         return FAIL;
+    if (g_img != NULL) {
+        H4V_CHECK(file_rec->f_cur_off >= 0 && (long)file_rec->f_cur_off + bytes <= g_img_len, "HP_read inside the file image");
+        for (int32 h4v_i = 0; h4v_i < bytes; h4v_i++)
+            ((unsigned char *)buf)[h4v_i] = g_img[file_rec->f_cur_off + h4v_i];
+    }
 #ifdef H4V_CBMC
-    if (bytes > 0)
+    else if (bytes > 0)
         __CPROVER_havoc_slice(buf, (size_t)bytes);
 #endif
     g_rd_n++;
